@@ -247,24 +247,11 @@ K["access_2d_range_range_vbb"] = dict(
             "proof { lemma_cnt_lt(ix1.d@, ix1.d@.len() as int); lemma_cnt_lt(ix2.d@, ix2.d@.len() as int); lemma_cnt_mono(ix2.d@, c as int + 1, ix2.d@.len() as int); lemma_cnt_bounds(ix2.d@, c as int); }")])
 
 
-def _fn(name, k, mt, mode):
-    req = list(k["requires"])
-    if mode == "value":
-        req.append(k["valid"])
-        ens = ["res.is_some()"] + list(k["value"])
-    elif mode == "reject":
-        # mask kernels: `addressed` = every selected position exists (the mask-length clause is the separate obligation .masklen)
-        ens = ["res.is_some() ==> " + k.get("addressed", k["valid"])]
-    else:
-        ens = ["res.is_some() ==> " + k.get("masklen", k["valid"])]
-    loops = []
-    for lp in k["loops"]:
-        head, first, before = (lp, "", "") if isinstance(lp, str) else (tuple(lp) + ("",))[:3]
-        if mode == "value":      # the precondition VALID is carried through the loops
-            head = head.replace("invariant ", "invariant %s, " % k["valid"], 1)
-        loops.append((head, first, before))
-    return vmat.kernel_fn("k_%s_%s" % (name, mode), mt, k["params"], k["sig"], req, ens, loops, scalars=k.get("scalars", ()),
-                          post=(k.get("post_proof", "") + "\n  Some(())"))
+MODES = {
+    "value": "%s (structs %s): with every index valid, the kernel returns normally and the output holds exactly the elements the 1-based column-major model selects, in reference order and documented shape (any matrix size)",
+    "reject": "%s (structs %s): if the kernel returns normally then every addressed position exists (0, or a position beyond the dimension, never yields a value)",
+    "masklen": "%s (structs %s): if the kernel returns normally then the mask length equals the indexed dimension",
+}
 
 
 def kernel_items(names=None):
@@ -274,42 +261,10 @@ def kernel_items(names=None):
         if names and name not in names:
             continue
         mt = extract_macro(text, name)
-        for mode in ("value", "reject") + (("masklen",) if "addressed" in k else ()):
-            items.append(("%s.%s" % (name, mode), _fn(name, k, mt, mode)))
+        for mode in vmat.modes_of(k):
+            items.append(("%s.%s" % (name, mode), vmat.mode_fn(name, k, mt, mode)))
     return items
 
 
-WHAT = {
-    "value": "%s (structs %s): with every index valid, the kernel returns normally and the output holds exactly the elements the 1-based column-major model selects, in reference order and documented shape (any matrix size)",
-    "reject": "%s (structs %s): if the kernel returns normally then every addressed position exists (0, or a position beyond the dimension, never yields a value)",
-    "masklen": "%s (structs %s): if the kernel returns normally then the mask length equals the indexed dimension",
-}
-
-
-def add_units(plan, prop="C03", table=None, path=None, tag="access"):
-    """one Verus unit per kernel (a kernel whose shape drifted only loses its own obligations)"""
-    table = table or K
-    text = vlib.read_repo(path or PATH)
-    model = vmat.model_text()
-    for name, k in table.items():
-        modes = ("value", "reject") + (("masklen",) if "addressed" in k else ())
-        obs = {m: plan.ob("%s.verus.%s.%s" % (prop, name, m), "verus", "proved", functions=["%s! (%s)" % (name, k.get("structs", ""))],
-                          what=WHAT[m] % (name + "!", k.get("structs", ""))) for m in modes}
-        try:
-            mt = extract_macro(text, name)
-            items = [model] + [_fn(name, k, mt, m) for m in modes]
-        except (AnchorLost, Exception) as e:
-            plan.anchor_errors.append(("%s.verus.%s.*" % (prop, name), "%s: %s" % (type(e).__name__, e)))
-            for o in obs.values():
-                o.status, o.detail = "undecided", "anchor lost: %s" % e
-            continue
-        items.append(vlib.verus_canary("canary_" + name, "x: u64", []))
-        u = vlib.VerusUnit("%s_%s" % (prop.lower(), name), vlib.verus_file(items), {"k_%s_%s" % (name, m): obs[m].name for m in modes}, ["canary_" + name])
-        u.rlimit = 150
-        plan.verus.append(u)
-    plan.dropped.append("(K) indexing kernels: macro bodies transcribed onto the Verus matrix model by the rewrite rules R0-R8 of /verif/units/vmat.py "
-                        "(metavariables -> parameters, raw-pointer derefs dropped, nalgebra index/assign -> bounds-checked get/set with `?` for the panic, "
-                        "`x - 1` -> dec(x)?, element clones dropped, elements modelled as u64)")
-    plan.assumptions.append("nalgebra's DMatrix/DVector/RowDVector behave as /verif/contracts/common/matmodel.rs (column-major storage, bounds-checked "
-                            "Index/IndexMut, resize_*_mut gives the requested shape); resize_* are external_body specs")
-    plan.assumptions.append("the kernels are generic in the element type and only clone elements: verified at element type u64; source and output do not alias")
+def add_units(plan, prop="C03"):
+    vmat.add_units(plan, prop, K, PATH, MODES)
